@@ -437,6 +437,11 @@ func (g *Gen) tr(e Expr, env *Env) Val {
 func (g *Gen) loadCell(h *Heap, v Val) Val {
 	pt := v.Ty.Underlying().(*types.Pointer)
 	et := pt.Elem()
+	if at, ok := et.Underlying().(*types.Array); ok {
+		// an array variable: its elements live in the element array of its reference
+		es := sortOf(at.Elem())
+		return Val{T: fmt.Sprintf("(select %s %s)", g.arr(h, elemArrName(es), "(Array Int "+es+")"), v.T), Ty: et}
+	}
 	s := sortOf(et)
 	name := "C!" + sortTag(s)
 	return Val{T: fmt.Sprintf("(select %s %s)", g.arr(h, name, s), v.T), Ty: et,
@@ -449,7 +454,7 @@ func isCellType(t types.Type) bool {
 		return false
 	}
 	switch pt.Elem().Underlying().(type) {
-	case *types.Struct, *types.Array:
+	case *types.Struct:
 		return false
 	}
 	return true
